@@ -20,7 +20,8 @@ from ..worlds import sigs as WS
 
 PROP = 'C19'
 LEVEL = 'fault_enumeration'
-RUNS = {'quick': 480, 'thorough': 9600}
+RUNS = {'quick': 320, 'thorough': 6400}
+WORKER_ARGS = {'run_timeout': 400}
 EXHAUSTIVE = False   # crash points of each sampled write are enumerated completely; the space of writes is sampled
 
 RULE = ('runs generated from the seed, one write per run: a collection of 1-12 signatures (k 1..32, all four index widths, empty signatures, string/integer ids, Unicode metadata with nested extra), '
@@ -182,28 +183,32 @@ def scenario(ctx):
 	thorough = ctx.tier == 'thorough'
 	rng = random.Random(ch.subseed('world'))
 	writer = ch.weighted([('dump', 4), ('cli', 1)], 'writer')
-	payload = ch.weighted([('small', 11), ('large', 1)], 'payload') if not thorough else ch.weighted([('small', 8), ('large', 2), ('huge', 1)], 'payload')
+	payload = ch.weighted([('small', 22), ('large', 2), ('huge', 1)], 'payload') if not thorough else ch.weighted([('small', 8), ('large', 2), ('huge', 1)], 'payload')
 	compression = ch.pick([None, 'gzip', 'lzf'], 'compression')
+	if payload == 'huge' and compression == 'gzip':
+		compression = 'lzf'      # deflating megabytes at every crash point costs minutes and adds nothing
 	pre = ch.pick(['fresh', 'old_valid'], 'preexisting')
 	path = os.path.join(ctx.scratch, 'target.gs')
 	os.makedirs(ctx.scratch, exist_ok=True)
 
 	if writer == 'dump':
-		k = ch.pick([11, 1, 3, 4, 5, 8, 9, 16, 17, 24, 32], 'k')
+		k = ch.pick([11, 1, 3, 4, 5, 8, 9, 16, 17, 24, 32], 'k') if payload != 'huge' else ch.pick([11, 9, 16], 'k_huge')
 		prefix = ch.pick(['ATGAC', 'A', 'GT', 'TTT'], 'prefix')
 		from gambit.kmers import index_dtype
 		dtype = str(np.dtype(index_dtype(k)))
 		kind = ch.pick(['SignatureArray', 'AnnotatedList', 'SignatureList', 'AnnotatedArray'], 'container')
-		n = ch.int(1, 12, 'n')
+		n = ch.int(1, 12, 'n') if payload != 'huge' else ch.int(6, 8, 'n_huge')
 		universe = min(4 ** k, 2 ** 62)
-		maxsize = dict(small=300, large=60000, huge=400000)[payload]
+		maxsize = dict(small=300, large=60000, huge=220000)[payload]
 		arrays = []
 		for i in range(n):
 			r = rng.random()
-			if r < 0.15:
+			if r < 0.15 and payload != 'huge':
 				size = 0
 			elif payload == 'small':
 				size = rng.randint(1, maxsize)
+			elif payload == 'huge':
+				size = rng.randint(maxsize * 4 // 5, maxsize)      # 6+ signatures of >= 176k values: more than 2**20 values in total
 			else:
 				size = rng.randint(maxsize // 2, maxsize)
 			size = min(size, universe)
@@ -311,6 +316,24 @@ def scenario(ctx):
 		out_b.append(c)
 		ctx.key(shape, 'h5', i, c)
 		ctx.state(shape, 'h5', c)
+	# ---- the process dies from a signal it could have handled: SIGINT (Python turns it into KeyboardInterrupt and
+	# unwinds - every boundary), SIGTERM (default disposition kills at once - a drawn subset of boundaries)
+	out_i = []
+	term_points = sorted({ch.int(0, max(0, B - 1), f'term{j}') for j in range(min(4, B))}) if B else []
+	for how, points in (('h5int', list(range(B))), ('h5term', term_points)):
+		for i in points:
+			_restore(path, old_bytes)
+			r = crash.run_forked(fn, args, (how, i), path)
+			died = r['killed'] or (r['info'] is not None and not r['info']['ok'])
+			if not died:
+				raise HarnessError(f'child survived {how} at boundary {i}: {r}')
+			ctx.fault('interrupt_at_h5_boundary' if how == 'h5int' else 'sigterm_at_h5_boundary')
+			ctx.tick()
+			ctx.stats['executions'] += 1
+			c = _judge(ctx, desc, f'by {"KeyboardInterrupt (SIGINT)" if how == "h5int" else "SIGTERM"} before h5py call {i} ({names[i]}) of {B}', path, old_bytes, expected, counts, old_desc)
+			out_i.append(c)
+			ctx.key(shape, how, i, c)
+			ctx.state(shape, how, c)
 	# ---- every write-class system call, plus torn variants of multi-page writes
 	out_s = []
 	pre_close_data = 0
@@ -335,9 +358,9 @@ def scenario(ctx):
 			out_s.append(c)
 			ctx.key(shape, 'sys', j, tear > 0, c)
 			ctx.state(shape, 'sys' if not tear else 'tear', c)
-	ctx.log('outcomes', h5=''.join(out_b), sys=''.join(out_s), counts=counts)
+	ctx.log('outcomes', h5=''.join(out_b), sig=''.join(out_i), sys=''.join(out_s), counts=counts)
 	ctx.stats['writes'] += 1
-	ctx.stats['crash_points'] += len(out_b) + len(out_s)
+	ctx.stats['crash_points'] += len(out_b) + len(out_s) + len(out_i)
 	if payload != 'small':
 		ctx.probe('multi_megabyte_payload' if sum(len(b) for _, b in expected['arrays']) > 2 ** 20 else 'large_payload')
 	if any(s > 65536 for s in sizes):
@@ -346,5 +369,5 @@ def scenario(ctx):
 		ctx.probe('crash_after_last_metadata_write_loads_equal')
 	if 'U' in out_b or 'U' in out_s or 'O' in out_b or 'O' in out_s:
 		ctx.probe('crash_before_old_file_touched')
-	ctx.sample = dict(desc=desc, B=B, W=W, h5=''.join(out_b), sys=''.join(out_s))
+	ctx.sample = dict(desc=desc, B=B, W=W, h5=''.join(out_b), sig=''.join(out_i), sys=''.join(out_s))
 	_restore(path, None)
